@@ -229,8 +229,56 @@ def param_shape_case(ctx: Ctx, stream: str, i: int) -> None:
     ctx.case(f'param-shape:{cfg}', True, sample=cfg)
 
 
+def index_infer_case(ctx: Ctx, stream: str, i: int) -> None:
+    """index operators built WITHOUT an explicit output structure (it is inferred): integers, slices with every sign of
+    start / stop / step (empty results included), an ellipsis, integer arrays; one leaf or several leaves of different
+    shapes — the declared structure against what `mv` returns"""
+    from furax._base.indices import IndexOperator
+    rng = ctx.rng(stream, i)
+    nd = rng.randint(1, 3)
+    shape = tuple(rng.choice([2, 3, 4, 5, 7]) for _ in range(nd))
+
+    def slc(n):
+        return slice(rng.choice([None, 0, 1, -1, -2, n - 1, n, -n, -n - 1]), rng.choice([None, 0, 1, -1, -2, n, n + 2, -n - 1]),
+                     rng.choice([None, 1, 2, -1, -2, -3, 3]))
+    entries = []
+    for ax in range(nd):
+        k = rng.random()
+        if k < 0.5:
+            entries.append(slc(shape[ax]))
+        elif k < 0.65:
+            entries.append(rng.randint(-shape[ax], shape[ax] - 1))
+        elif k < 0.8:
+            entries.append(slice(None))
+        else:
+            entries.append(jnp.asarray([rng.randint(-shape[ax], shape[ax] - 1) for _ in range(rng.randint(1, 3))]))
+            break
+    if rng.random() < 0.3 and nd >= 2:
+        entries = entries[:1] + [Ellipsis] + ([slc(shape[-1])] if rng.random() < 0.6 else [])
+    if rng.random() < 0.2:
+        entries = entries[:rng.randint(1, len(entries))]
+    dt = jnp.float64 if (jax.config.jax_enable_x64 and rng.random() < 0.4) else jnp.float32
+    nleaf = rng.choice([1, 1, 2])
+    leaves = [jax.ShapeDtypeStruct(shape if k == 0 else shape + ((2,) if rng.random() < 0.5 else ()), dt) for k in range(nleaf)]
+    s = leaves[0] if nleaf == 1 else {'b': leaves[0], 'a': leaves[1]}
+    idx = tuple(entries)
+    st, op = safe(lambda: IndexOperator(idx if len(idx) != 1 or rng.random() < 0.5 else idx[0], in_structure=s))
+    cfg = {'shape': shape, 'indices': str(idx)[:200], 'nleaf': nleaf}
+    if st != 'ok':
+        ctx.count('index-infer:refused:' + st)
+        ctx.case(f'index-infer-refused:{cfg}', False)
+        return
+    check(ctx, stream, i, op, 'index-inferred-structure')
+    stt, t = safe(lambda: op.T)
+    if stt == 'ok':
+        check(ctx, stream, i, t, 'index-inferred-structure:T')
+
+
 def run(ctx: Ctx) -> None:
     q = ctx.tier == 'quick'
+    for i in range(120 if q else 2000):
+        if ctx.want('index-infer', i):
+            index_infer_case(ctx, 'index-infer', i)
     for i in range(60 if q else 900):
         if ctx.want('params', i):
             param_shape_case(ctx, 'params', i)
